@@ -5,6 +5,7 @@ import (
 	"fmt"
 	"math"
 	"math/rand"
+	"reflect"
 	"sort"
 	"strings"
 	"sync"
@@ -603,6 +604,7 @@ func runC04(c *run.Ctx) {
 	hist += c04Kennel(c)
 	hist += c04OmittedAndShared(c, s, sdl, g, types)
 	hist += c04Relaxed(c)
+	hist += c04Unsigned(c)
 	// under reflection the "resolver" is a Go method: each parameter must receive the value the client wrote for ITS argument
 	// (order given by RegisterField, also when registered after a first request) - judged against the direct Go call
 	c02Methods(c)
@@ -1316,6 +1318,79 @@ func c04Relaxed(c *run.Ctx) int {
 						rep(fmt.Sprintf("enum members received %v, the client wrote %v", got, rc.want))
 					}
 				}
+			}
+		}
+	}
+	return done
+}
+
+// c04Unsigned: variable maps built by Go code (not decoded from JSON) carry unsigned kinds; the values no int64 literal can
+// express - 2^63 and up, among them the ones that wrap to small negative numbers when converted carelessly - are not Ints
+// and not Int64s: the request fails for that variable and the resolver does not run.
+func c04Unsigned(c *run.Ctx) int {
+	const sdl = `input UBox { n: Int m: Int64 } type Query { i(v: Int): String n(v: Int!): String l(v: [Int!]): String i64(v: Int64): String b(box: UBox): String }`
+	vals := []interface{}{uint64(math.MaxUint64), uint64(math.MaxUint64 - 5), uint64(math.MaxUint64 - math.MaxInt32), uint64(math.MaxUint64-math.MaxInt32) - 1,
+		uint64(1) << 63, uint64(1)<<63 + 1, uint(math.MaxUint64), uint64(1) << 32, uint64(math.MaxUint32), uint32(math.MaxUint32), uint(1) << 31}
+	reqs := []struct {
+		text string
+		wrap func(v interface{}) interface{}
+		i64  bool
+	}{
+		{`query($v: Int){ i(v: $v) }`, func(v interface{}) interface{} { return v }, false},
+		{`query($v: Int!){ n(v: $v) }`, func(v interface{}) interface{} { return v }, false},
+		{`query($v: [Int!]){ l(v: $v) }`, func(v interface{}) interface{} { return []interface{}{1, v} }, false},
+		{`query($v: Int64){ i64(v: $v) }`, func(v interface{}) interface{} { return v }, true},
+		{`query($v: UBox){ b(box: $v) }`, func(v interface{}) interface{} { return map[string]interface{}{"n": v} }, false},
+		{`query($v: UBox){ b(box: $v) }`, func(v interface{}) interface{} { return map[string]interface{}{"m": v} }, true},
+		{`query($v: Int){ b(box: {n: $v}) }`, func(v interface{}) interface{} { return v }, false},
+	}
+	done := 0
+	for ri, rq := range reqs {
+		for vi, v := range vals {
+			u := reflect.ValueOf(v).Uint()
+			fits := (rq.i64 && u <= math.MaxInt64) || (!rq.i64 && u <= math.MaxInt32)
+			ro := &c04RelaxedRoot{}
+			root := ggql.NewRoot(ro)
+			if err := root.ParseString(sdl); err != nil {
+				c.Violation("c04-schema-rejected", map[string]interface{}{"error": err.Error()})
+				return done
+			}
+			var res map[string]interface{}
+			pv, _ := run.Protect(func() { res = root.ResolveString(rq.text, "", map[string]interface{}{"v": rq.wrap(v)}) })
+			done++
+			c.Eval(fmt.Sprintf("unsigned|%d|%d", ri, vi), true)
+			c.Bucket("form", "var-native-unsigned")
+			diag := ""
+			switch {
+			case pv != nil:
+				diag = fmt.Sprintf("panic: %v", pv)
+			case len(ro.calls) == 0 && res["errors"] == nil:
+				diag = "the resolver did not run and no error was reported"
+			case len(ro.calls) > 0 && !fits:
+				diag = fmt.Sprintf("%T(%d) is no %s, but the resolver ran and received %#v", v, u, map[bool]string{true: "Int64", false: "Int"}[rq.i64], ro.calls[0])
+			case len(ro.calls) > 0:
+				// it fits: what arrived must be that number
+				var leaves []interface{}
+				for _, a := range ro.calls[0] {
+					c04EnumLeaves(map[string]interface{}{"k": a}, &leaves)
+					if m, isM := a.(map[string]interface{}); isM {
+						for _, e := range m {
+							leaves = append(leaves, e)
+						}
+					}
+				}
+				ok := false
+				for _, l := range leaves {
+					if rv := reflect.ValueOf(l); rv.IsValid() && rv.CanInt() && rv.Int() == int64(u) {
+						ok = true
+					}
+				}
+				if !ok {
+					diag = fmt.Sprintf("%T(%d) fits, but the resolver received %#v", v, u, ro.calls[0])
+				}
+			}
+			if diag != "" {
+				c.Violation("c04-unsigned", map[string]interface{}{"sdl": sdl, "document": rq.text, "variable": fmt.Sprintf("%T(%d)", v, u), "diag": diag, "response": fmt.Sprint(res)})
 			}
 		}
 	}
